@@ -226,9 +226,9 @@ func init() {
 		Phases: func(tier universe.Tier) []*harness.Phase {
 			return []*harness.Phase{
 				{Name: "invalid-definitions", Rule: "~75 invalid definitions x 11 positions x 6 entry-point orders; distinct by (definition, position, order)", Body: func(c *explore.C) { c13Defs(c, tier) }},
-				{Name: "nested-families", Rule: "64 generated pairs of mutually nested static types x all call sequences of length <=3 over {A,B} x 3 entry points per call; a type must be rejected iff an invalid definition is reachable from it, in every order", Body: func(c *explore.C) { c13Graphs(c, tier) }},
+				{Name: "nested-families", Rule: "64 generated pairs of mutually nested static types x all call sequences of length <=3 (thorough: <=5) over {A,B} x 3 entry points per call; a type must be rejected iff an invalid definition is reachable from it, in every order", Body: func(c *explore.C) { c13Graphs(c, tier) }},
 				{Name: "siblings", Rule: "invalid definitions (one per rejection site in the quick tier, all in the thorough tier) x 4 ways of nesting the invalid struct x 6 ways of nesting a valid sibling struct in the same outer definition x declaration order x id order x entry point x sibling used before or not; the sibling must behave as in a process that never saw the invalid definition", Body: func(c *explore.C) { c13Siblings(c, tier) }},
-				{Name: "id-sweep", Rule: "all ordered pairs of ids from the boundary set {0, 2^k-1, 2^k, 2^k+1 (k<=16), ...} (about 60 values) x 4 field layouts x top-level/nested; equal ids must be rejected by all three entry points, distinct ids must be accepted and travel under their own id", Body: func(c *explore.C) { c13IDSweep(c, tier) }},
+				{Name: "id-sweep", Rule: "all ordered pairs of ids from the boundary set {0, 2^k-1, 2^k, 2^k+1 (k<=16), ...} (about 60 values; thorough: also every id 0..200) x 4 field layouts x top-level/nested; equal ids must be rejected by all three entry points, distinct ids must be accepted and travel under their own id", Body: func(c *explore.C) { c13IDSweep(c, tier) }},
 				{Name: "arguments", Rule: "non-struct arguments x 3 entry points x position in a history with a valid type", Body: func(c *explore.C) { c13Args(c, tier) }},
 			}
 		},
@@ -294,7 +294,11 @@ func c13Defs(c *explore.C, tier universe.Tier) {
 func c13Graphs(c *explore.C, tier universe.Tier) {
 	pairs := universe.GraphPairs
 	pi := c.Choose(len(pairs), explore.Data, "pair")
-	n := 1 + c.Choose(3, explore.Data, "history-length")
+	maxHist := 3
+	if tier == universe.Thorough {
+		maxHist = 5
+	}
+	n := 1 + c.Choose(maxHist, explore.Data, "history-length")
 	type call struct{ node, entry int }
 	var hist []call
 	for i := 0; i < n; i++ {
